@@ -467,6 +467,8 @@ class CFG:
                 toks |= self._raise_tokens(n)
                 return toks
             if isinstance(s, ast.Assert):
+                if not getattr(exc, 'asserts_raise', True):
+                    return exc.expr_raises(s.test, n)
                 return exc.expr_raises(s.test, n) | {('exact', 'AssertionError')}
             if isinstance(s, (ast.FunctionDef, ast.AsyncFunctionDef, ast.ClassDef, ast.Pass, ast.Global, ast.Nonlocal)):
                 return set()
@@ -498,6 +500,7 @@ class CFG:
             if fr is None:
                 return {('live',)}
             hn = self._find_handler_node(fr, n)
+            n.attrs['reraises'] = True
             return set(hn.attrs['incoming'])
         e = s.exc
         if isinstance(e, ast.Call):
@@ -511,6 +514,7 @@ class CFG:
                 if fr.kind == 'try' and fr.phase == 'handler' and fr.handler.name == e.id:
                     if not _name_rebound(fr.handler, e.id):
                         hn = self._find_handler_node(fr, n)
+                        n.attrs['reraises'] = True
                         return set(hn.attrs['incoming'])
             # local assigned from class constructor calls only
             toks = set()
@@ -531,10 +535,42 @@ class CFG:
             if not c.startswith('?') and self.exc.bases(c):
                 return {('exact', c)}
             return {('sub', 'Exception')}
+        if isinstance(e, ast.Subscript) and isinstance(e.value, ast.Name):
+            # raise L[i] where the local list L only ever receives handler-bound exceptions
+            toks = self._list_of_caught(e.value.id, n)
+            if toks is not None:
+                return toks
         c = self.exc.canon(e)
         if not c.startswith('?') and self.exc.bases(c):
             return {('exact', c)}
         return {('sub', 'Exception')}
+
+    def _list_of_caught(self, lname, n):
+        toks = set()
+        found = False
+        for sub in ast.walk(self.fnode):
+            if isinstance(sub, ast.Name) and sub.id == lname and isinstance(sub.ctx, ast.Store):
+                p = getattr(sub, '_parent', None)
+                if not (isinstance(p, ast.Assign) and isinstance(p.value, ast.List) and not p.value.elts):
+                    return None
+            if isinstance(sub, ast.Call) and isinstance(sub.func, ast.Attribute) and isinstance(sub.func.value, ast.Name) and sub.func.value.id == lname:
+                if sub.func.attr != 'append' or len(sub.args) != 1 or not isinstance(sub.args[0], ast.Name):
+                    return None
+                # the appended name must be bound by an enclosing handler
+                h = None
+                cur = getattr(sub, '_parent', None)
+                while cur is not None and cur is not self.fnode:
+                    if isinstance(cur, ast.ExceptHandler) and cur.name == sub.args[0].id:
+                        h = cur
+                        break
+                    cur = getattr(cur, '_parent', None)
+                if h is None:
+                    return None
+                found = True
+                for (hid, dup), hn in self._handler_nodes.items():
+                    if hid == id(h):
+                        toks |= set(hn.attrs['incoming'])
+        return toks if found else None
 
     def _find_handler_node(self, fr, n):
         # the handler node instance with the longest dup prefix of n.dup
@@ -558,7 +594,19 @@ class CFG:
             self._pending = []
             work = [n for n in list(self.nodes) if n.kind not in ('entry', 'exit', 'raise', 'branch')]
             for n in work:
-                toks = self._node_raises(n)
+                raw = self._node_raises(n)        # may mark the node as re-raising
+                toks = set(raw)
+                own = set(raw)
+                if n.attrs.get('reraises'):
+                    own = set()
+                elif ('live',) in raw:
+                    # a callee re-raising "the live exception": inside a handler that is
+                    # exactly what the handler caught
+                    fr = self._enclosing_handler(n)
+                    if fr is not None:
+                        own = raw - {('live',)}
+                        toks = own | set(self._find_handler_node(fr, n).attrs['incoming'])
+                n.attrs['own'] = own
                 old = done.setdefault(n.id, set())
                 for tok in sorted(toks - old, key=repr):
                     old.add(tok)
